@@ -26,7 +26,10 @@ Scalar(z) == [shape |-> <<1, 1>>, vals |-> <<z>>]
 -----------------------------------------------------------------------------
 \* lattice catalogues (selected through  Lattices <- ...  in the cfg file)
 Lat(name, Lx, Ly, bcx, bcy, mps, uc, cells) ==
-    [name |-> name, Lx |-> Lx, Ly |-> Ly, bcx |-> bcx, bcy |-> bcy, mps |-> mps, uc |-> uc, cells |-> cells]
+    [name |-> name, Lx |-> Lx, Ly |-> Ly, bcx |-> bcx, bcy |-> bcy, mps |-> mps, uc |-> uc, cells |-> cells, shift |-> 0]
+\* shifted periodic boundary along y: tenpy bc = ['periodic', shift]
+LatShift(l, sh) == [l EXCEPT !.shift = sh]
+ShiftSquares(types) == {LatShift(Lat("Square", 2, 2, "periodic", "periodic", "finite", <<t>>, 1), 1) : t \in types}
 Chains(Ls, types) ==
     {Lat("Chain", L, 1, bc, "open", "finite", <<t>>, 1) : L \in Ls, bc \in {"open", "periodic"}, t \in types}
 InfChains(Ls, types, cells) == {Lat("Chain", L, 1, "periodic", "open", "infinite", <<t>>, cells) : L \in Ls, t \in types}
@@ -37,7 +40,8 @@ Squares == {Lat("Square", 2, 2, bcx, bcy, "finite", <<t>>, 1) :
                bcx \in {"open", "periodic"}, bcy \in {"open", "periodic"}, t \in {"spin", "fermion"}}
 InfSquares == {Lat("Square", 1, 2, "periodic", bcy, "infinite", <<t>>, 2) : bcy \in {"open", "periodic"}, t \in {"spin", "fermion"}}
 
-LatticesMC == Chains({3}, {"spin", "fermion"}) \cup InfChains({2}, {"fermion"}, 2)
+LatticesMC == Chains({3}, {"spin", "fermion"}) \cup InfChains({2}, {"fermion"}, 2) \cup ShiftSquares({"spin"})
+              \cup {Lat("Chain", 2, 1, "open", "open", "finite", <<"boson4">>, 1)}
               \cup {Lat("Ladder", 2, 1, "open", "open", "finite", <<"spin", "fermion">>, 1),
                     Lat("Square", 2, 2, "open", "periodic", "finite", <<"fermion">>, 1)}
 LatticesOne == {Lat("Chain", 3, 1, "open", "open", "finite", <<"fermion">>, 1)}
@@ -48,7 +52,8 @@ LatticesLong == LatticesLong1 \cup LatticesLong2
 LatticesQuick == Chains({2, 3, 4}, {"spin", "fermion", "boson1"}) \cup Chains({2, 3}, {"boson2"})
                  \cup InfChains({1}, {"spin", "fermion"}, 4) \cup InfChains({2}, {"spin", "fermion", "boson1"}, 2)
                  \cup InfChains({3}, {"fermion"}, 1)
-                 \cup Ladders \cup InfLadders \cup Squares \cup InfSquares
+                 \cup Ladders \cup InfLadders \cup Squares \cup InfSquares \cup ShiftSquares({"spin", "fermion"})
+                 \cup {Lat("Chain", 2, 1, bc, "open", "finite", <<"boson4">>, 1) : bc \in {"open", "periodic"}}
 LatticesFull == LatticesQuick \cup Chains({5}, {"spin", "fermion"}) \cup InfChains({2}, {"spin", "fermion"}, 3)
                  \cup InfChains({1}, {"boson2"}, 3)
 
@@ -59,10 +64,10 @@ Scalars == IF Small THEN {<<1, 0>>, <<1, 2>>} ELSE {<<1, 0>>, <<2, 0>>, <<-1, 0>
 OnsiteOps(t) == CASE t = "spin" -> (IF Small THEN {"Sigmaz", "Sp"} ELSE {"Sigmax", "Sigmay", "Sigmaz", "Sp", "Sm"})
                   [] t = "fermion" -> {"N"}
                   [] t = "boson1" -> {"N", "B", "Bd"}
-                  [] t = "boson2" -> {"N", "NN"}
+                  [] t \in {"boson2", "boson4"} -> {"N", "NN"}
 \* operators that never need a Jordan-Wigner string
 BosonicOps(t) == CASE t = "spin" -> {"Sigmaz", "Sp"} [] t = "fermion" -> {"N"}
-                   [] t = "boson1" -> {"N", "B"} [] t = "boson2" -> {"N", "NN"}
+                   [] t = "boson1" -> {"N", "B"} [] t \in {"boson2", "boson4"} -> {"N", "NN"}
 OpPairs(t1, t2) ==
     IF t1 = t2 THEN
         CASE t1 = "spin" -> (IF Small THEN {<<"Sp", "Sm">>, <<"Sigmax", "Sigmay">>}
@@ -70,7 +75,7 @@ OpPairs(t1, t2) ==
           [] t1 = "fermion" -> (IF Small THEN {<<"Cd", "C">>, <<"C", "C">>}
                                 ELSE {<<"Cd", "C">>, <<"C", "Cd">>, <<"N", "N">>, <<"Cd", "Cd">>, <<"C", "C">>})
           [] t1 = "boson1" -> {<<"Bd", "B">>, <<"N", "N">>, <<"B", "N">>}
-          [] t1 = "boson2" -> {<<"N", "N">>, <<"NN", "N">>}
+          [] t1 \in {"boson2", "boson4"} -> {<<"N", "N">>, <<"NN", "N">>}
     ELSE {<<a, b>> : a \in BosonicOps(t1), b \in BosonicOps(t2)}
 
 Dxs(c) == CASE c.name = "Square" -> (IF Small THEN {<<1, 0>>, <<0, 1>>, <<1, -1>>}
@@ -118,7 +123,7 @@ MultiPatterns(t) ==
                                  <<<<"Cd", 0>>, <<"Cd", 1>>, <<"C", 1>>, <<"C", 2>>>>,
                                  <<<<"Cd", 2>>, <<"C", 0>>, <<"Cd", 0>>, <<"C", 1>>>>})
       [] t = "boson1" -> {<<<<"Bd", 0>>, <<"B", 1>>, <<"N", 2>>>>, <<<<"Bd", 0>>, <<"N", 1>>, <<"B", 2>>>>}
-      [] t = "boson2" -> {<<<<"N", 0>>, <<"NN", 1>>, <<"N", 2>>>>}
+      [] t \in {"boson2", "boson4"} -> {<<<<"N", 0>>, <<"NN", 1>>, <<"N", 2>>>>}
 \* mixed unit cells: explicit <<name, dx, u>>
 MultiMixed(uc) ==
     CASE uc = <<"spin", "fermion">> -> {<<<<"Sigmaz", 0, 0>>, <<"Cd", 0, 1>>, <<"C", 1, 1>>>>,
@@ -223,13 +228,24 @@ PropMultiLong ==
             /\ pend' = [kind |-> "multi", s |-> Scalar(z), ops |-> ops, str |-> "auto", hc |-> hc, sw |-> sw]
             /\ UNCHANGED <<cfg, decls, H, G2, cons, last, nops, hist>>
 
-\* exponentially decaying couplings, lambda = 1/2 or 1/4; subsites: all, or every second site
+\* decay rates lambda = lam / lamInv as <<lam, lamInv>>: real and complex (Gaussian dyadic) ones
+DecayRates == IF Small THEN {<<<<1, 0>>, 2>>, <<<<1, 1>>, 2>>}
+              ELSE {<<<<1, 0>>, 2>>, <<<<1, 0>>, 4>>, <<<<0, 1>>, 2>>, <<<<1, 1>>, 2>>, <<<<1, -1>>, 4>>}
+\* terms centred on one site (finite systems, operators without Jordan-Wigner string)
+PropExpCenter ==
+    /\ CanPropose /\ UniformCell(cfg) /\ ~Infinite(cfg) /\ NW(cfg) <= 6 /\ NW(cfg) >= 2
+    /\ \E hc \in BOOLEAN, lm \in DecayRates, z \in Scalars, i0 \in {0, NW(cfg) \div 2, NW(cfg) - 1} :
+         \E pr \in {q \in OpPairs(TypeU(cfg, 0), TypeU(cfg, 0)) : ~NeedsJW(TypeU(cfg, 0), q[1]) /\ ~NeedsJW(TypeU(cfg, 0), q[2])} :
+           Propose([kind |-> "expcenter", s0 |-> z, lam |-> lm[1], lamInv |-> lm[2], dmax |-> NW(cfg) - 1, opi |-> pr[1], opj |-> pr[2],
+                    i0 |-> i0, subs |-> <<>>, hc |-> hc])
+
+\* exponentially decaying couplings, lambda = lam / lamInv; subsites: all, or every second site
 PropExpDecay ==
     /\ CanPropose /\ UniformCell(cfg) /\ NW(cfg) <= 6
-    /\ \E hc \in BOOLEAN, lamInv \in {2, 4}, z \in Scalars, sub \in {0, 1} :
+    /\ \E hc \in BOOLEAN, lm \in DecayRates, z \in Scalars, sub \in {0, 1} :
          \E pr \in OpPairs(TypeU(cfg, 0), TypeU(cfg, 0)) :
            LET subs == IF sub = 0 THEN <<>> ELSE [k \in 1..((NCell(cfg) + 1) \div 2) |-> 2 * (k - 1)]
-               d0 == [kind |-> "expdecay", s0 |-> z, lamInv |-> lamInv, dmax |-> 0, opi |-> pr[1], opj |-> pr[2],
+               d0 == [kind |-> "expdecay", s0 |-> z, lam |-> lm[1], lamInv |-> lm[2], dmax |-> 0, opi |-> pr[1], opj |-> pr[2],
                       subs |-> subs, hc |-> hc]
                m == Len(SubsWindow(cfg, d0))
            IN /\ m >= 2 /\ (sub = 0 \/ NCell(cfg) >= 2)
@@ -242,7 +258,7 @@ PropLocal ==
 
 \* NN models: no exponentially decaying declarations and every term within range 1
 NNModel(c, ds) == /\ NW(c) >= 2
-                  /\ \A n \in 1..Len(ds) : ds[n].kind # "expdecay"
+                  /\ \A n \in 1..Len(ds) : ds[n].kind \notin {"expdecay", "expcenter"}
                   /\ IsNNTerms(AllTerms(c, ds, Len(ds)))
 
 Bonds(c, ds) ==
@@ -279,10 +295,11 @@ CommitOnsite == Commit("onsite")
 CommitCoupling == Commit("coupling")
 CommitMulti == Commit("multi")
 CommitExpDecay == Commit("expdecay")
+CommitExpCenter == Commit("expcenter")
 CommitLocal == Commit("local")
 
-Next == Setup \/ PropOnsite \/ PropCoupling \/ PropCouplingStr \/ PropMulti \/ PropMultiLong \/ PropExpDecay \/ PropLocal
-        \/ CommitOnsite \/ CommitCoupling \/ CommitMulti \/ CommitExpDecay \/ CommitLocal
+Next == Setup \/ PropOnsite \/ PropCoupling \/ PropCouplingStr \/ PropMulti \/ PropMultiLong \/ PropExpDecay \/ PropExpCenter \/ PropLocal
+        \/ CommitOnsite \/ CommitCoupling \/ CommitMulti \/ CommitExpDecay \/ CommitExpCenter \/ CommitLocal
 Spec == Init /\ [][Next]_vars
 
 -----------------------------------------------------------------------------
@@ -304,7 +321,7 @@ ManifestlyHermitian(d) ==
     \/ /\ d.kind \in {"coupling", "multi"} /\ RealStrength(d.s) /\ d.str = "auto"
        /\ \A k \in 1..Len(d.ops) : SelfHc(d.ops[k][1]) /\ ~NeedsJW("fermion", d.ops[k][1])
        /\ \A a, b \in 1..Len(d.ops) : a # b => <<d.ops[a][2], d.ops[a][3]>> # <<d.ops[b][2], d.ops[b][3]>>
-    \/ d.kind = "expdecay" /\ d.s0[2] = 0 /\ SelfHc(d.opi) /\ SelfHc(d.opj) /\ ~NeedsJW("fermion", d.opi)
+    \/ d.kind = "expdecay" /\ d.s0[2] = 0 /\ d.lam[2] = 0 /\ SelfHc(d.opi) /\ SelfHc(d.opj) /\ ~NeedsJW("fermion", d.opi)
 HermitianWheneverTermsAre == Idle /\ (\A n \in 1..Len(decls) : ManifestlyHermitian(decls[n])) => MIsHermitian(H)
 
 \* H = sum of the bond operators (finite NN models)
